@@ -1586,15 +1586,23 @@ def m_opt_default(eng, st, fr, fn, args, t):
     return _ret(st, mk_none())
 
 
+def _handwritten(eng, fn, trait):
+    """the call resolves to an impl of `trait` written by hand in the analysed crates (a derived impl comes from a macro
+    expansion): such an impl is not modelled, it is inlined like any other function"""
+    rb = eng.facts.bodies.get(fn.get("resolved", {}).get("id"))
+    return rb is not None and rb.get("impl_exp") is False and rb.get("impl_trait", "").startswith(trait)
+
+
 def m_clone(eng, st, fr, fn, args, t):
+    if _handwritten(eng, fn, "core::clone::Clone"):
+        return None
     return _ret(st, _pointee(eng, st, args[0]))
 
 
 def m_eq(eng, st, fr, fn, args, t):
     # a hand-written `PartialEq` impl in the analysed crates is not structural equality: leave it to inlining (a derived
     # impl comes from a macro expansion and is structural by construction)
-    rb = eng.facts.bodies.get(fn.get("resolved", {}).get("id"))
-    if rb is not None and rb.get("impl_exp") is False and rb.get("impl_trait", "").startswith("core::cmp::PartialEq"):
+    if _handwritten(eng, fn, "core::cmp::PartialEq"):
         return None
     a = _pointee(eng, st, args[0])
     b = _pointee(eng, st, args[1])
